@@ -8,6 +8,82 @@ COMMON = ["the harness module replaces github.com/openconfig/gnmi with /repo's w
           "rapid v1.3.0 generators; every random choice is a function of VERIF_SEED"]
 
 CHECKS = {
+    "C12": dict(
+        engine="ingestfuzz",
+        technique="structured property-based fuzzing (rapid, hostile-shape generators) + native coverage-guided fuzzing of the wire bytes; oracle = no panic, rejected message leaves stored data intact",
+        level_text=("Four in-process targets with fresh state per case: cache ingest (raw Cache.GnmiUpdate and the collector's stamping closure) followed by UpdateMetadata/UpdateSize/walk through MakeSubscribeResponse/"
+                    "client receive/Reset/Remove; the Subscribe handler on an in-memory stream inside a synctest bubble (all its goroutines must finish); the gNMI client's real receive function into a CacheClient; "
+                    "cli.QueryDisplay for every display and query type through a registered in-process client type. Generators are biased to the hostile shapes the property lists (empty/root paths, prefix-only, "
+                    "meta and meta/<every name> with every value arm, missing val, deprecated value, element encoding, globs, atomic with/without prefix elements and with deletes, extreme timestamps, every mode, missing prefix/target/subscribe). "
+                    "Any panic is a violation; if the cache returns an error, every leaf the message does not address must be byte-identical afterwards (the whole content for single-entry messages). "
+                    "Thorough adds three native fuzz targets seeded with hostile constants. Bounded search, not a proof of absence."),
+        level_note=("messages are round-tripped through proto.Marshal so only wire-representable shapes are fed; a panic on a goroutine started by the code under test kills the process and is attributed to the scenario announced last; "
+                    "the manager's handling of nil/error responses is covered by C13"),
+        rule=("cases are (pre-state, lifecycle calls, 1-5 hostile messages); non-trivial = a message passed the first validation of its entry point (known target / subscribe request with a target / update response) "
+              "AND carries at least one hostile feature; distinct = distinct hash of the scenario"),
+        assumptions=COMMON + [SYNCTEST_ASSUMPTION],
+        parts=[
+            dict(name="ingest", run="TestC12Ingest", checks=dict(quick=8000, thorough=40000), shards=dict(quick=1, thorough=8)),
+            dict(name="subscribe", run="TestC12Subscribe", checks=dict(quick=4000, thorough=20000), shards=dict(quick=1, thorough=8)),
+            dict(name="client", run="TestC12Client", checks=dict(quick=8000, thorough=40000), shards=dict(quick=1, thorough=8)),
+            dict(name="fuzz-notification", run="FuzzC12Notification", rapid=False, tiers=("thorough",), fuzz=dict(target="FuzzC12Notification", time=dict(thorough="60s")), timeout=dict(thorough=400)),
+            dict(name="fuzz-subscribe-request", run="FuzzC12SubscribeRequest", rapid=False, tiers=("thorough",), fuzz=dict(target="FuzzC12SubscribeRequest", time=dict(thorough="45s")), timeout=dict(thorough=400)),
+            dict(name="fuzz-subscribe-response", run="FuzzC12SubscribeResponse", rapid=False, tiers=("thorough",), fuzz=dict(target="FuzzC12SubscribeResponse", time=dict(thorough="60s")), timeout=dict(thorough=400)),
+        ],
+    ),
+    "C13": dict(
+        engine="managerprop",
+        technique=("property-based testing (rapid) of generated fault scripts and externally timed Remove/Reconnect/Add calls against the real manager.Manager "
+                   "under virtual time (testing/synctest), with a per-target runtime monitor (trace predicates) over the totally ordered trace of callbacks, "
+                   "dial/stream events and external calls"),
+        level_text=("Thousands (quick) to 320 000 (thorough) generated scenarios: 1-3 targets on shared or distinct addresses, each with a script of up to 6 "
+                    "connection attempts (dial refused / hanging until cancelled or until Config.Timeout / answering after a delay; stream constructor failing; Send failing; "
+                    "0-5 messages - update, sync, deprecated error response, response without any arm - each after 0-7 s of silence, updates optionally consumed by a slow "
+                    "Update callback; then stream error, io.EOF or silence), a healthy stream once the script is exhausted, receive timeout off / Config.ReceiveTimeout / "
+                    "per-target meta receive_timeout (valid, unparsable, '0s'), production retry delays (1 s / 1 min) or smaller generated ones, jitter 0 (85 %) / 0.2 / 0.5, "
+                    "ConnectError+MonitorError set or nil, request template with or without a prefix and shared by all targets, and 0-7 external calls at generated virtual "
+                    "instants (Remove, Reconnect, Add of a managed target = duplicate, Add of a removed target = re-add, Remove of a removed or never-added name, Reconnect of "
+                    "an unknown name), a tail of 0-3.5 retry bounds, Remove of everything still managed, and a silence window of 10 x RetryMaxDelay x (1+RetryRandomization). "
+                    "The harness sleeps to the instant, waits for quiescence (synctest.Wait), acts, waits again; every callback, every Connection/done/stream-open/Send/Recv call "
+                    "and return, and every external call and return is appended to one trace. The monitor demands per target: no callback after a Remove of the target has "
+                    "returned (until a later Add is called) nor for a never-added name; Connect only when the current stream has handed over >=1 message, at most once per stream, "
+                    "never while an ended stream still waits for its Reset or the previous session is open; Update/Sync only inside a session and equal, position by position, to the "
+                    "update/sync messages Recv handed over on that stream (identity by notification timestamp), all delivered before the Reset; Resets == streams whose Recv failed "
+                    "(error, EOF, cancellation), each before any later Connect and none missing at the end; after every failure of a managed target (dial error, open error, Send "
+                    "error, Recv error) the next Connection call starts no later than RetryMaxDelay*(1+RetryRandomization) and no earlier than RetryBaseDelay*(1-RetryRandomization) "
+                    "- or the target's Remove is called within the bound; no Recv call is left waiting longer than the target's effective receive timeout; a Reconnect issued while "
+                    "Recv is blocked ends that stream at the same instant; duplicate Add and Remove of an unmanaged name return an error and nothing else happens at that instant; "
+                    "the request sent is the template with the target's name in its prefix and the shared template is never modified. "
+                    "Sensitivity: 22 seeded manager mutants (no Reset on EOF / when cancelled / unless connected, Connect at stream open / after the first update / once per target, "
+                    "Remove not waiting or cancelling late, retry loop stopping, no fresh context after a forced reconnect, double Reset, delivery in a goroutine, reordered / dropped "
+                    "deliveries, duplicate Add replacing, unknown Remove accepted, MaxInterval not applied (2 variants), delay/1000, no receive-timeout goroutine, Reconnect a no-op, "
+                    "template customised in place) are all reported within 30 cases on 3 seeds and their shrunk replays fail again. Bounded exploration, not a proof."),
+        level_note=("trusts the ~350-line monitor (unit-checked on hand-made traces: TestSelfJudge) and the in-memory doubles (ConnectionManager handing out an idle "
+                    "grpc.NewClient connection that is never used, scripted gpb.GNMI_SubscribeClient whose Recv/Send/dial return ctx.Err() as soon as their context ends, "
+                    "target attribution through the outgoing metadata key 'target' the manager sets); external calls land only at quiescent points of virtual time (including inside "
+                    "a slow Update callback), interleavings inside one instant are the Go scheduler's and are not enumerated; a refused call's 'changes nothing' is judged by the "
+                    "absence of any trace event between two quiescent points; TestSelfDeterminism confirms two runs of one scenario give identical per-target traces "
+                    "(jittered multi-target cases excepted: the backoff library draws from the global math/rand source, seeded per case via GODEBUG=randseednop=0)"),
+        rule=("cases are scenarios (retry parameters, 1-3 target scripts, 0-7 timed external calls, tail); non-trivial = at least one stream whose Recv fails after it handed "
+              "over >=1 message (not counting streams ended by the harness's final clean-up Removes) AND a generated Remove or Reconnect that lands mid-session "
+              "(Connect reported, stream alive, Recv blocked or Update callback running) or mid-backoff (failure seen, next Connection call not yet started); "
+              "distinct = distinct hash of the scenario"),
+        assumptions=COMMON + [SYNCTEST_ASSUMPTION,
+                              "one address per target (createConn tries a target's next hops in map order, which would make traces irreproducible); no credentials lookup",
+                              "collaborators honour context cancellation promptly, as gRPC dials and streams do; Recv never returns (nil, nil)",
+                              "callbacks return at once, except Update callbacks with a scripted cost; slow callbacks are never combined with receive timeouts: Remove holds the "
+                              "manager-wide mutex while it waits for the target's goroutine, a receive-timeout goroutine calling Reconnect meanwhile waits on that mutex, and synctest "
+                              "cannot advance virtual time past a mutex wait (in production the call merely waits)",
+                              "a stream whose Send of the subscription request fails is not counted as an 'ended stream': the code reports no Reset for it and the monitor accepts 0 or 1 "
+                              "(it never carried a subscription and no Connect was reported); a stream-constructor failure is no stream at all",
+                              "'retried with backoff' is read as: next attempt within [RetryBaseDelay*(1-RetryRandomization), RetryMaxDelay*(1+RetryRandomization)] after the failure (1 ms slack); "
+                              "'attempt starts' = the ConnectionManager is asked for a connection",
+                              "a re-Add after Remove truncates that Remove's silence window at the Add (callbacks carry only the name); Removes without a later Add are observed for >= 10 x the largest retry delay",
+                              "Reconnect of an unknown name is exercised but its return value is not judged (the statement is silent about it)"],
+        parts=[
+            dict(name="random", run="TestC13Random", checks=dict(quick=2000, thorough=20000), shards=dict(quick=1, thorough=16)),
+        ],
+    ),
     "C18": dict(
         engine="clientprop",
         technique=("property-based testing (rapid) in virtual time: client.Reconnect(BaseClient|CacheClient) and the plain clients over a scripted client.Impl "
